@@ -464,6 +464,28 @@ func main() {
 				return
 			}
 		}
+		// (e) a header that declares far more than the input holds, FOLLOWED by several KiB of real data (more than
+		// one read-buffer-full): the decoder may only ever allocate in proportion to what it has actually read
+		{
+			payload := bytes.Repeat([]byte{'x'}, 9000)
+			heads := [][]byte{
+				{0x7a, 0x40, 0, 0, 0}, {0x5a, 0x40, 0, 0, 0}, {0x7a, 0x7f, 0xff, 0xff, 0xff}, {0x5a, 0xff, 0xff, 0xff, 0xff},
+				{0x7b, 0, 0, 0x01, 0, 0, 0, 0, 0}, {0x5b, 0, 0, 0x01, 0, 0, 0, 0, 0}, {0x7b, 0x80, 0, 0, 0, 0, 0, 0, 0}, {0x5b, 0xff, 0xff, 0xff, 0xff, 0xff, 0xff, 0xff, 0xff},
+				{0x7b, 0x7f, 0xff, 0xff, 0xff, 0xff, 0xff, 0xff, 0xff}, {0x9a, 0x40, 0, 0, 0}, {0xba, 0x40, 0, 0, 0}, {0x9b, 0, 0, 0x01, 0, 0, 0, 0, 0},
+				{0xd8, 0x3f, 0x5a, 0x40, 0, 0, 0}, {0xd9, 0x01, 0x07, 0x5b, 0, 0, 0x01, 0, 0, 0, 0, 0}, {0xd9, 0x01, 0x06, 0x7a, 0x40, 0, 0, 0},
+			}
+			for hi, h := range heads {
+				for ci, pre := range [][]byte{nil, {0xbf, 0x61, 'k'}, {0xbf, 0x61, 'a', 0x81}, {0xbf, 0x61, 'o', 0xbf, 0x61, 'i'}} {
+					if (hi*4+ci)%n != shard {
+						continue
+					}
+					for _, plen := range []int{0, 100, 4096, 9000} {
+						in := append(append(append([]byte{}, pre...), h...), payload[:plen]...)
+						c.one(in, "hostile-length", true)
+					}
+				}
+			}
+		}
 		// (d) reader-buffer boundaries: the decoder reads through a 4096-byte bufio.Reader; every byte of a probe
 		// event is placed on the first refill boundary once (a padding event in front, 4200 more bytes behind),
 		// and the stream must decode to exactly what its events decode to one by one
